@@ -1,2 +1,3 @@
+@property
 def spec(self):
     return ((c, getattr(self.aux_states_, n, None)) for n, c in self.cells_.items())
